@@ -1,1 +1,126 @@
-// kani harnesses (included from /repo under cfg(kani))
+// C33-O1: limit arithmetic of Params (collection size, apply rows, emitted rows).
+// Included from /repo/nervusdb-query/src/query_api.rs under cfg(kani).
+use super::*;
+
+fn params_with(opts: ExecuteOptions) -> Params {
+    Params::with_execute_options(opts)
+}
+
+fn is_limit_err(r: &Result<()>) -> bool {
+    matches!(r, Err(Error::ResourceLimitExceeded { .. }))
+}
+
+fn collection(stage: &'static str, relaxed: bool) {
+    let limit: usize = kani::any();
+    let observed: usize = kani::any();
+    let opts = ExecuteOptions {
+        max_intermediate_rows: kani::any(),
+        max_collection_items: limit,
+        soft_timeout_ms: 0,
+        max_apply_rows_per_outer: kani::any(),
+    };
+    let p = params_with(opts);
+    let r = p.check_collection_size(stage, observed);
+    let err = is_limit_err(&r);
+    let ok = r.is_ok();
+    std::mem::forget((p, r));
+    let default_limit = 200_000usize;
+    let effective = if relaxed && limit == default_limit { 1_100_000 } else { limit };
+    kani::cover!(err, "witness: limit error reachable");
+    kani::cover!(ok, "witness: ok reachable");
+    assert!(err || ok, "limits: result is Ok or a resource-limit error");
+    assert!(err == (observed > effective), "limits: error iff observed exceeds the effective limit");
+}
+
+#[kani::proof]
+#[kani::unwind(20)]
+fn c33_o1_q_collection_generic_stage() {
+    collection("List", false);
+}
+#[kani::proof]
+#[kani::unwind(20)]
+fn c33_o1_q_collection_range_stage() {
+    collection("Function(range)", true);
+}
+#[kani::proof]
+#[kani::unwind(20)]
+fn c33_o1_q_collection_unwind_stage() {
+    collection("Unwind.list", true);
+}
+#[kani::proof]
+#[kani::unwind(20)]
+fn c33_o1_q_collection_aggregate_stage() {
+    collection("Aggregate.rows", true);
+}
+
+#[kani::proof]
+#[kani::unwind(20)]
+fn c33_o1_q_apply_rows() {
+    let limit: usize = kani::any();
+    let observed: usize = kani::any();
+    let opts = ExecuteOptions {
+        max_intermediate_rows: kani::any(),
+        max_collection_items: kani::any(),
+        soft_timeout_ms: 0,
+        max_apply_rows_per_outer: limit,
+    };
+    let p = params_with(opts);
+    let r = p.check_apply_rows_per_outer("Apply", observed);
+    let err = is_limit_err(&r);
+    let ok = r.is_ok();
+    std::mem::forget((p, r));
+    kani::cover!(err, "witness: limit error reachable");
+    kani::cover!(ok, "witness: ok reachable");
+    assert!(err || ok, "limits: result is Ok or a resource-limit error");
+    assert!(err == (observed > limit), "limits: error iff observed exceeds the limit");
+}
+
+fn emitted(stage: &'static str, relaxed: bool) {
+    let limit: usize = kani::any();
+    let already: usize = kani::any();
+    let opts = ExecuteOptions {
+        max_intermediate_rows: limit,
+        max_collection_items: kani::any(),
+        soft_timeout_ms: 0,
+        max_apply_rows_per_outer: kani::any(),
+    };
+    let p = params_with(opts);
+    {
+        let mut st = p.runtime.state.lock().unwrap();
+        st.emitted_rows = already;
+    }
+    let r = p.note_emitted_row(stage);
+    let after = p.runtime.state.lock().unwrap().emitted_rows;
+    let err = is_limit_err(&r);
+    let ok = r.is_ok();
+    std::mem::forget((p, r));
+    let effective = if relaxed && limit == 500_000 { 2_500_000 } else { limit };
+    let expect_after = if already == usize::MAX { usize::MAX } else { already + 1 };
+    kani::cover!(err, "witness: limit error reachable");
+    kani::cover!(ok, "witness: ok reachable");
+    kani::cover!(already == usize::MAX, "witness: saturated counter reachable");
+    assert!(after == expect_after, "limits: the row counter counts every row and saturates (never wraps)");
+    assert!(err || ok, "limits: result is Ok or a resource-limit error");
+    assert!(err == (after > effective), "limits: error iff emitted rows exceed the effective limit");
+}
+
+#[kani::proof]
+#[kani::unwind(20)]
+fn c33_o1_q_emitted_generic_stage() {
+    emitted("Filter", false);
+}
+#[kani::proof]
+#[kani::unwind(20)]
+fn c33_o1_q_emitted_project_stage() {
+    emitted("Project", true);
+}
+#[kani::proof]
+#[kani::unwind(20)]
+fn c33_o1_q_emitted_unwind_stage() {
+    emitted("Unwind", true);
+}
+#[kani::proof]
+#[kani::unwind(20)]
+fn c33_o1_q_emitted_aggregate_stage() {
+    emitted("Aggregate", true);
+}
